@@ -95,7 +95,7 @@ def main():
                     L0 = {op: O.dense(O.boundary(api, "laplace", op, trial, test, test, parameters=par)) for op in ops}
                     kmags = [1e-6, 1e-2, 0.3, 1.0] if not ctx.quick else [1e-3, 0.5, 1.0]
                     for ki, km in enumerate(kmags):
-                        ph = [0.0, np.pi / 2, rng.uniform(0.05, 1.5), np.pi - 0.3][(ki + vi + pi) % 4]
+                        ph = [0.0, np.pi / 2, rng.uniform(0.05, 1.5) * (1 if (ki + pi) % 2 else -1), np.pi - 0.3, -(np.pi - 0.3)][(ki + vi + pi) % 5]
                         k = km / Dm * np.exp(1j * ph)
                         if abs(k.imag) < 1e-300:
                             k = float(k.real)
@@ -192,10 +192,13 @@ def main():
             inc = {} if mesh.is_closed_manifold() else {"include_boundary_dofs": True}
             p1 = api.function_space(grid, "P", 1, **inc)
             dp0 = api.function_space(grid, "DP", 0)
+            # the same relations with spaces EXCHANGED whose normal orientations differ (swapped normals on one space only)
+            swd = [int(sorted(set(mesh.D.tolist()))[-1])]
+            p1w = api.function_space(grid, "P", 1, swapped_normals=swd, **inc)
             Dm = mesh.diameter()
             for k in ([(1.1 + 0.4j) / Dm] if ctx.quick else [(1.1 + 0.4j) / Dm, 2.5 / Dm, 0.8j / Dm]):
                 orders = [4, 8, 10]
-                rels = {"V_symmetric[P1]": [], "V_symmetric[DP0]": [], "W_symmetric[P1]": [], "K'=K^T[P1,DP0]": []}
+                rels = {"V_symmetric[P1]": [], "V_symmetric[DP0]": [], "W_symmetric[P1]": [], "K'=K^T[P1,DP0]": [], "W_exchanged[P1,P1swapped]": [], "K'=K^T[P1swapped,DP0]": []}
                 cid = "symmetry:%s:kD=%s" % (mname, complex(k * Dm))
                 if not ctx.want(cid):
                     continue
@@ -211,6 +214,12 @@ def main():
                         rels["V_symmetric[DP0]"].append(O.frob(V0 - V0.T) / O.frob(V0))
                         rels["W_symmetric[P1]"].append(O.frob(W - W.T) / O.frob(W))
                         rels["K'=K^T[P1,DP0]"].append(O.frob(Kp - K.T) / O.frob(K))
+                        Wab = O.dense(O.boundary(api, "helmholtz", "hypersingular", p1, p1w, p1w, k, parameters=par))
+                        Wba = O.dense(O.boundary(api, "helmholtz", "hypersingular", p1w, p1, p1, k, parameters=par))
+                        Kw = O.dense(O.boundary(api, "helmholtz", "double_layer", p1w, dp0, dp0, k, parameters=par))
+                        Kpw = O.dense(O.boundary(api, "helmholtz", "adjoint_double_layer", dp0, p1w, p1w, k, parameters=par))
+                        rels["W_exchanged[P1,P1swapped]"].append(O.frob(Wab - Wba.T) / O.frob(Wab))
+                        rels["K'=K^T[P1swapped,DP0]"].append(O.frob(Kpw - Kw.T) / O.frob(Kw))
                     ctx.case(cid, {"mesh": mname, "k": complex(k), "singular_orders": orders, "asymmetry": rels})
                     for nm, a in rels.items():
                         top = a[-1]
